@@ -15,6 +15,7 @@ From AV Require Import Model.D18.
 From AV Require Import Model.D16.
 From AV Require Import Base.ITree Model.D00 Model.D01 Model.D06.
 From AV Require Import Model.D10.
+From AV Require Import Base.ITree Model.D00 Model.D01 Model.D04 Model.D06 Model.D07 Model.D15.
 Import ListNotations.
 
 Definition dispatch (prop op : nat) (t : itree) : itree :=
@@ -37,5 +38,6 @@ Definition dispatch (prop op : nat) (t : itree) : itree :=
   | 16 => d16 op t
   | 10 => d10 op t              (* C10 and C11 share the regex ops *)
   | 11 => d10 op t
+  | 15 => d15 op t
   | _ => bad_input
   end.
